@@ -60,6 +60,7 @@ func DefaultOpFeatures(t *tape.Tape) OpFeatures {
 		DirectiveVars:   t.Bool(1, 2),
 		AliasCollide:    t.Bool(1, 4),
 		IDAlias:         t.Bool(1, 2),
+		FragTwice:       t.Bool(1, 2),
 		VarInInput:      t.Bool(1, 3),
 		VarStricter:     t.Bool(1, 3),
 		MultiOp:         t.Bool(1, 5),
